@@ -4,6 +4,7 @@ Model: DTML/Batch.lean (`LazySt` = SequenceFromIter with pull log; `renderwbT` =
 ordered list of the accesses `renderwb` makes; `renderwobT` for unbatched).
 -/
 import DTML.Batch
+import DTML.GenCode
 import DTML.Gen
 import DTML.Props.C11
 set_option linter.unusedVariables false
@@ -126,6 +127,91 @@ theorem pulls_sequential (src : Option Nat) (t : List Acc) :
   intro n hn
   apply h.2.1
   rw [hsrc]; simpa [LazySt.init] using hn
+
+/-! ### The lazy wrapper of the model is the wrapper of the source
+
+`GenCode.sfiGetitemGen` / `sfiLenLoopGen` are regenerated on every run from `DT_Util.SequenceFromIter.__getitem__` /
+`__len__` (the negative-index test, the `while not self.finished and idx >= len(self.data)` loop around
+`try: self.data.append(next(self.it)) except StopIteration: self.finished = True`, the final `self.data[idx]`; the
+`while not self.finished: self[len(self.data)]` loop of `__len__`).  They compute `LazySt.get` / `LazySt.lenOp`, the
+functions about which `pulls_sequential`, `run_pulled` and the pull bounds are stated. -/
+
+private theorem tryNext_eq_pull1 (l : LazySt) : GenCode.sfiTryNext l = l.pull1 := by
+  unfold GenCode.sfiTryNext LazySt.next? LazySt.pull1
+  cases l.src with
+  | none => rfl
+  | some n => by_cases h : l.pulled < n <;> simp [h]
+
+private theorem getitemLoop_eq_fill (idx : Nat) : ∀ (fuel : Nat) (l : LazySt),
+    GenCode.sfiGetitemLoopGen (idx : Int) fuel l = l.fill idx fuel := by
+  intro fuel
+  induction fuel with
+  | zero => intro l; rfl
+  | succ k ih =>
+    intro l
+    simp only [GenCode.sfiGetitemLoopGen, LazySt.fill, tryNext_eq_pull1, ih]
+    have : decide ((idx : Int) ≥ (l.pulled : Int)) = decide (idx ≥ l.pulled) := by
+      simp only [ge_iff_le, Int.ofNat_le]
+    rw [this]
+
+/-- `self[idx]` -/
+theorem gen_getitem_is_model (l : LazySt) (idx : Int) :
+    GenCode.sfiGetitemGen (idx.toNat + 2) l idx = l.get idx := by
+  unfold GenCode.sfiGetitemGen LazySt.get
+  by_cases h : idx < 0
+  · simp [h]
+  · simp only [h, decide_false, Bool.false_eq_true, if_false]
+    have hi : idx = (idx.toNat : Int) := by omega
+    rw [hi, getitemLoop_eq_fill]
+    simp only [Int.toNat_natCast, Int.ofNat_lt]
+
+private theorem get_pulled_eq_pull1 (l : LazySt) (hf : l.finished = false) :
+    (GenCode.sfiGetitemGen (l.pulled + 2) l (l.pulled : Int)).1 = l.pull1 := by
+  have := gen_getitem_is_model l (l.pulled : Int)
+  simp only [Int.toNat_natCast] at this
+  rw [this]
+  unfold LazySt.get
+  have h0 : ¬ ((l.pulled : Int) < 0) := by omega
+  simp only [h0, if_false, Int.toNat_natCast]
+  -- the first iteration pulls once; after it either one more item is there or the iterator is exhausted
+  have h2 : (!l.pull1.finished && decide (l.pulled ≥ l.pull1.pulled)) = false := by
+    unfold LazySt.pull1
+    cases l.src with
+    | none => simp
+    | some n => by_cases h : l.pulled < n <;> simp [h]
+  have e1 : l.fill l.pulled (l.pulled + 2) = l.pull1.fill l.pulled (l.pulled + 1) := by
+    rw [show l.pulled + 2 = (l.pulled + 1) + 1 from rfl, LazySt.fill]
+    simp [hf]
+  have e2 : l.pull1.fill l.pulled (l.pulled + 1) = l.pull1 := by
+    rw [LazySt.fill, h2]
+    simp
+  rw [e1, e2]
+
+/-- `len(self)` on a bounded iterator: the loop of `__len__` (each round asks for the first element not yet there) ends
+in the state `LazySt.lenOp` describes — everything pulled, each element once, exhaustion seen -/
+theorem gen_len_is_model (n : Nat) : ∀ (fuel : Nat) (l : LazySt), Inv l → l.src = some n →
+    GenCode.sfiLenLoopGen fuel l = l.fill n fuel := by
+  intro fuel
+  induction fuel with
+  | zero => intro l _ _; rfl
+  | succ k ih =>
+    intro l hinv hsrc
+    simp only [GenCode.sfiLenLoopGen, LazySt.fill]
+    have hle : l.pulled ≤ n := hinv.2.1 n hsrc
+    by_cases hf : l.finished = true
+    · simp [hf]
+    · have hf' : l.finished = false := by simpa using hf
+      simp only [hf', Bool.not_false, if_true, ge_iff_le, hle, decide_true, Bool.and_self]
+      rw [get_pulled_eq_pull1 l hf']
+      apply ih
+      · exact inv_pull1 l hinv hf'
+      · unfold LazySt.pull1; rw [hsrc]; by_cases h : l.pulled < n <;> simp [h, hsrc]
+
+/-- so `len()` of the source's wrapper is the model's `lenOp` (fuel `n + 2`, as there) -/
+theorem gen_len_is_lenOp (n : Nat) (l : LazySt) (hinv : Inv l) (hsrc : l.src = some n) :
+    GenCode.sfiLenLoopGen (n + 2) l = l.lenOp := by
+  rw [gen_len_is_model n (n + 2) l hinv hsrc]
+  simp [LazySt.lenOp, hsrc]
 
 /-! #### how many elements a trace pulls -/
 
